@@ -166,6 +166,32 @@ PROPS['C19'] = {
         'input variety is workload inside a fixed envelope'],
 }
 
+PROPS['C13'] = {
+    'harness': 'cursor', 'level': 'exploration',
+    'runs': {'quick': 2000, 'thorough': 60000},
+    'cpu_s': 300, 'wall_s': 900,
+    'rule': ('one run = one generated file (gridded with every NAME variant, '
+             'temperature, height/pressure, humidity, vertical diffusivity, '
+             'wind, generic 3-D; nx, ny 1-5, nz 1-3, 1-5 steps, start hours incl. '
+             'day/year roll-over) opened by both reader families, a fresh '
+             'open+full read of both in a CPU-limited child (termination), '
+             'then a seeded access schedule of 5-40 steps: variable reads '
+             '(whole / one step / one layer) on either reader, raw record '
+             'reads through the record reader\'s cursor (seekandread, '
+             'seek+read) in random order, time flags, dimension lengths, '
+             'collections, closing the record reader\'s file late; after every '
+             'access the reader-with-history is compared with a FRESH reader '
+             'of the other family. distinct = abstracted access trace; '
+             'non-trivial = both families accepted the file and at least one '
+             'scheduled access followed'),
+    'components': {'real': REAL, 'stub': ['producer of the files (reference CAMx encoders)',
+                                          'GC trigger']},
+    'assumptions': [
+        'a file on which the record reader raises is not "accepted by both families"; the property makes no claim about it (counted in stats.record_reader_rejects)',
+        'gridded EMISSIONS files are surface files (nz=1) and AIRQUALITY files hold one time',
+        'data equality is up to length-1 axes, as the property states'],
+}
+
 MANIFEST_TEXT = {
     'C05': {
         'text': ('Seeded search over schedules: thousands of simulated runs, '
@@ -302,6 +328,26 @@ MANIFEST_TEXT['C19'] = {
     'technique': 'deterministic simulation: crash-at-acknowledgement image of a buffered text handle + handle schedule + simulated clock across two write/read cycles',
 }
 
+MANIFEST_TEXT['C13'] = {
+    'text': ('Seeded search over access schedules: for generated files of '
+             'every format with both reader families, variable reads, raw '
+             'record reads through the record reader\'s hidden cursor '
+             '(seekandread / seek+read in random order, repeats), time flags, '
+             'dimension lengths, collections and a late close of the record '
+             'reader\'s file are interleaved; after every access the reader '
+             'with history must agree with a fresh reader of the other '
+             'family, and termination is enforced by a CPU-limited child for '
+             'the fresh open+read and a CPU-time watchdog per access. The '
+             'schedule is what the simulator contributes: the answer must not '
+             'depend on what was read before.'),
+    'design_ref': 'DESIGN.md section 5 (C13)',
+    'note': ('Trusted: reference encoders as file source. Files the record '
+             'reader rejects are outside the claim (counted). Two recorded '
+             'known findings (record readers have no calendar across a year '
+             'end; wind record reader on grids of <= 3 cells).'),
+    'technique': 'deterministic simulation: seeded access schedule over the record reader\'s hidden cursor, compared step by step with a fresh reader of the other family; CPU-limited termination probe',
+}
+
 NOT_APPLICABLE = {
     'C01': 'pure function of (file, operation sequence): no clock, handle, finaliser, registry or disk state enters any conjunct, so there is no schedule or fault to sample',
     'C02': 'hyperslab selection is a pure function of arrays and selectors; nothing for a simulator to schedule or fault',
@@ -318,6 +364,5 @@ NOT_APPLICABLE = {
 
 # claimed by DESIGN.md but whose check is not built/registered yet
 PENDING = {
-    'C13': 'planned (DESIGN.md section 5, access-schedule over hidden cursors): check not registered yet',
     'C18': 'planned (DESIGN.md section 5): check not registered yet',
 }
